@@ -25,3 +25,24 @@ impl<T> AsSliceIdentity<T> for [T] { fn as_slice(&self) -> &[T] { self } }
   vec_as_slice args
 @*/
 /*@end*/
+/*@type lang/dynamics/src/impls.rs :: struct Branch @*/
+impl Branch {
+/*@fn lang/dynamics/src/impls.rs :: impl Branch :: fn select
+  plain
+@*/
+/*@end*/
+}
+// the comparison helpers the two functions call (integer_comparison / float_comparison, whatever they are: fn or macro) are pulled in
+// by the dependency closure, so a change of their form is not a lost anchor
+/*@fn lang/dynamics/src/impls.rs :: fn integer_branch
+  plain
+  vec_as_slice args
+  weaken_thunk_patterns
+@*/
+/*@end*/
+/*@fn lang/dynamics/src/impls.rs :: fn float_branch
+  plain
+  vec_as_slice args
+  weaken_thunk_patterns
+@*/
+/*@end*/
